@@ -343,19 +343,29 @@ impl AndaDB {
     /// # Returns
     /// A Result indicating success or an error
     pub async fn close(&self) -> Result<(), DBError> {
-        self.set_read_only(true);
+        // Sampled before the read-only flag is published as this close's
+        // admission barrier: a handle (or a database) that was read-only
+        // already must not be flushed by the close.
+        let db_was_read_only = self.is_read_only();
         let collections = self
             .inner
             .collections
             .read()
             .values()
-            .cloned()
+            .map(|collection| {
+                let was_read_only = db_was_read_only || collection.is_read_only();
+                (collection.clone(), was_read_only)
+            })
             .collect::<Vec<_>>();
-        let results: Vec<Result<(), DBError>> = stream::iter(collections)
-            .map(|collection| async move { collection.close().await })
-            .buffer_unordered(8) // 限制最多 8 个并发
-            .collect()
-            .await;
+        self.set_read_only(true);
+        let results: Vec<Result<(), DBError>> =
+            stream::iter(collections)
+                .map(|(collection, was_read_only)| async move {
+                    collection.close_as(was_read_only).await
+                })
+                .buffer_unordered(8) // 限制最多 8 个并发
+                .collect()
+                .await;
         // Log per-collection failures but continue closing the database to flush
         // metadata for the remaining successful collections, then surface the
         // first error so callers can react.
@@ -374,7 +384,13 @@ impl AndaDB {
         }
 
         let start = Instant::now();
-        match self.flush_metadata(unix_ms()).await {
+        // A database that was read-only before this close writes nothing.
+        let flushed = if db_was_read_only {
+            Ok(())
+        } else {
+            self.flush_metadata(unix_ms()).await
+        };
+        match flushed {
             Ok(_) => {
                 let elapsed = start.elapsed();
                 log::warn!(
